@@ -9,6 +9,7 @@ import (
 	ilog "github.com/aptpod/iscp-go/log"
 	"os"
 	"sync"
+	"sync/atomic"
 	"time"
 
 	ierrors "github.com/aptpod/iscp-go/errors"
@@ -115,8 +116,8 @@ type Env struct {
 	Downs map[string]*iscp.Downstream
 	Recs  []*Rec
 	wctr  int
-	// HangLimit: a call that has not returned after this long is abandoned and recorded as hung.
-	HangLimit time.Duration
+	// hangLimit (ns): a call that has not returned after this long is abandoned and recorded as hung.
+	hangLimit int64
 }
 
 func (c Config) pingTimeout() int {
@@ -193,8 +194,11 @@ func Start(w *sim.World, cfg Config) (*Env, error) {
 	if err != nil {
 		return nil, err
 	}
-	return &Env{W: w, Conn: conn, Cfg: cfg, T0: time.Now(), Events: ev, Ups: map[string]*iscp.Upstream{}, Downs: map[string]*iscp.Downstream{}, HangLimit: 10 * time.Second}, nil
+	return &Env{W: w, Conn: conn, Cfg: cfg, T0: time.Now(), Events: ev, Ups: map[string]*iscp.Upstream{}, Downs: map[string]*iscp.Downstream{}, hangLimit: int64(10 * time.Second)}, nil
 }
+
+// SetHangLimit sets the watchdog limit of subsequent calls.
+func (e *Env) SetHangLimit(d time.Duration) { atomic.StoreInt64(&e.hangLimit, int64(d)) }
 
 func (e *Env) ctxFor(op Op) (context.Context, context.CancelFunc, time.Duration) {
 	if op.BG {
@@ -236,7 +240,7 @@ func (e *Env) Do(g, i int, op Op) *Rec {
 		if r.error != nil {
 			r.Err = r.error.Error()
 		}
-	case <-time.After(e.HangLimit):
+	case <-time.After(time.Duration(atomic.LoadInt64(&e.hangLimit))):
 		r.Hung = true
 	}
 	r.Dur = time.Since(e.T0) - r.Start
